@@ -285,12 +285,12 @@ func (e *cenv) uCases() []ucase {
 	for _, u := range exc {
 		add("exceptional", u)
 	}
-	nr := e.c.Pick(48, 600)
+	nr := e.c.Pick(160, 1500)
 	if f.Deg() == 2 {
-		nr = e.c.Pick(32, 400)
+		nr = e.c.Pick(64, 600)
 	}
 	if e.heavy {
-		nr = e.c.Pick(10, 150)
+		nr = e.c.Pick(16, 200)
 	}
 	for i := 0; i < nr; i++ {
 		vs := make([]*big.Int, f.Deg())
@@ -363,7 +363,7 @@ func (e *cenv) helpers(ucs []ucase) {
 		}
 		return x
 	}
-	n := e.c.Pick(24, 300)
+	n := e.c.Pick(48, 400)
 	if e.heavy {
 		n = e.c.Pick(6, 60)
 	}
@@ -563,11 +563,11 @@ func (e *cenv) checkMap(u ofield.El, cls string) (gpt ocurve.Pt, gok bool) {
 			}
 		}
 	}
-	if on && cls == "random" {
+	if on && (cls == "random" || cls == "hashed-u") {
 		e.mu.Lock()
 		k := f.String(gp.X)
 		if prev, dup := e.seenX[k]; dup && !f.Eq(prev, u) && !f.Eq(prev, f.Neg(u)) {
-			c.Fail(KM+"/collision/random-u", "%s and u=%s (not +-u) map to the same abscissa %s: for independent random u this has probability ~ 8/q", desc(), f.String(prev), k)
+			c.Fail(KM+"/collision/independent-u", "%s and u=%s (not +-u) map to the same abscissa %s: for independent random u this has probability ~ 8/q", desc(), f.String(prev), k)
 		}
 		e.seenX[k] = u
 		e.mu.Unlock()
@@ -605,9 +605,25 @@ func (e *cenv) checkMap(u ofield.El, cls string) (gpt ocurve.Pt, gok bool) {
 		if e.iso != nil {
 			Q = e.iso.Eval(Q)
 		}
+		Qm := Q // the mapped point itself
 		if !Q.Inf && e.E.Double(Q).Inf {
 			// a point of order 2 has trivial r-part: any homomorphism into the subgroup of odd prime order r sends it to the identity
 			Q = ocurve.Pt{Inf: true}
+		}
+		if in.ClearCofactor != nil {
+			// the group-level function must be the composition of the verified pieces: ClearCofactor applied to the
+			// oracle's mapped point (the library's clearing is used as a building block here; that it is a homomorphism
+			// into the subgroup is established by the subgroup checks and the HashTo composition check)
+			lq := h2c.Pt{X: f.Zero(), Y: f.Zero()}
+			if !Qm.Inf {
+				lq = h2c.Pt{X: Qm.X, Y: Qm.Y}
+			}
+			var cc h2c.Pt
+			if !c.Guard(KG+"/panic/ClearCofactor", descG, func() { cc = in.ClearCofactor(lq) }) {
+				c.Check("MapToG", KG+"/composition-mismatch/"+bcls, e.E.Eq(toPt(f, cc), P), func() string {
+					return descG() + " = " + e.E.String(P) + " but ClearCofactor(isogeny(map(u))) with the oracle's mapped point " + e.E.String(Qm) + " is " + e.E.String(toPt(f, cc))
+				})
+			}
 		}
 		if !Q.Inf {
 			c.Check("MapToG", KG+"/identity/"+cls, !P.Inf, func() string {
